@@ -159,6 +159,10 @@ def apply_call(G, M, call):
     call = ('add', u, v, t, e) | ('from', [(u,v),..], t, e) | ('path'|'star'|'cycle', [nodes], t)
     returns (outcome, expected): outcome 'ok' | 'ValueError' | other exception class name"""
     kind = call[0]
+    if kind == 'node':              # ('node', n): an isolated node (networkx add_node is not blocked: nodes may carry attributes)
+        G.add_node(call[1])
+        M.nodes.add(call[1])
+        return ('ok', 'ok')
     if kind == 'add':
         _, u, v, t, e = call
         pairs, rest = [(u, v)], (t, e)
